@@ -97,4 +97,7 @@ def obligations(tier, seed=0):
                 add('iv_muldiv', fn='mpi_div', prec=4, s=s, t=t)
                 add('iv_addsub', fn='mpi_add', prec=24, s=[[k[0], 30, k[2]] if len(k) > 1 else k for k in s], t=[[k[0], 40, k[2]] if len(k) > 1 else k for k in t])
     obs.sort(key=lambda o: 0 if o[0].endswith('mpi_from_str') else 1)
+    # directed-rounding consistency of the special-value branches interval atan2/arg/log rely on (y = -inf must mirror the mode)
+    from checks.c13 import pi_special_grid
+    obs += pi_special_grid('fc')
     return obs
